@@ -36,6 +36,19 @@ pub fn run(tier: Tier) -> i32 {
             }
         }
     }
+    // header fields with their own validation: the properties byte set to every illegal value 225..=255 (and the two
+    // legal neighbours 223, 224) in a short stream - the write that completes the header must fail, and latch
+    for it in corpus::valid_items(ctx.seed, false).into_iter().filter(|it| it.name == "lits12+size" || it.name == "mix+marker") {
+        for kind in [corpus::OptKind::Header, corpus::OptKind::ProvidedSome, corpus::OptKind::HeaderProvidedSome] {
+            if let Some(b) = it.build(kind) {
+                for v in tier.pick(vec![223u8, 224, 225, 226, 255], (223..=255u8).collect()) {
+                    let mut x = b.bytes.clone();
+                    x[0] = v;
+                    extra.push(c05::Input { label: format!("{} [{:?}] byte 0 (properties) := {}", it.name, kind, v), bytes: x, opts: b.opts, max_sym: 0 });
+                }
+            }
+        }
+    }
     let mut k = 0usize;
     for i in all.iter().filter(|i| i.label.contains(" byte ")) {
         k += 1;
